@@ -12,9 +12,11 @@ import Proofs.Lemmas.C06Walk
 import Proofs.Lemmas.C06Match
 import Proofs.Lemmas.C06Proj
 import Proofs.Lemmas.C06ParseInd
+import Proofs.Lemmas.C06Heap
+import Proofs.Lemmas.C06WF
 
 namespace C06
-open Proc.FilterEval Spec.FilterSem Proc.Extract Proc.Tok Proc.FilterText C07
+open Proc.FilterEval Spec.FilterSem Proc.Extract Proc.Tok Proc.FilterText Proc.FilterHeap C07
 
 theorem matchWF_of (f : FilterFn) (res : Res) (h : OutWF res.values.length (f res)) :
     MatchWF (filterMatch f res) := h
@@ -252,6 +254,49 @@ example : exProjs.flatten.all (inFixed (fullnameKeysOf exProjs) · exResF12) = t
 example : projValue (fullnameKeysOf exProjs) dotFullname exResF12 = [70, 111, 111] := by decide +kernel
 example : decide (exResF12.name ∈ [[70, 111, 111], [66, 97, 114]]) = false := by decide +kernel
 
+/-! ## aliasing (heap model, Model/Proc/FilterHeap.lean) -/
+
+/-- **heap_match_refines**: in the heap model (masks are cells updated in place, closures hand
+addresses around) `Filter.Match` returns a `Match` that, read right after the call, is the `Match`
+of the functional model — so every theorem above also describes the in-place evaluator. -/
+theorem heap_match_refines (re : ReOracle) (e : Filter) (f : FilterFn) (res : Res) (h : Heap)
+    (hw : walk re e = .ok f) :
+    (matchH re e res h).1.read (matchH re e res h).2 = filterMatch f res := by
+  obtain ⟨r1, r2⟩ := refE re res e f hw h
+  simp only [matchH, HMatch.read, filterMatch]
+  rw [r1, r2]
+
+/-- **match_no_alias**: two successive `Match` calls (any filters, any results) on any heap.
+(1) cells that existed before a call are never written (`Ext`): masks the caller already holds,
+including the `Match` of the first call, keep their contents through the second call;
+(2) the mask a call returns was allocated by that call (its address is beyond the old heap);
+hence (3) the two returned masks are different cells, and (4) the first `Match` reads the same
+before and after the second call. A compiled filter keeps no mask between calls: the evaluator's
+only inputs are the tree, the result and the heap. -/
+theorem match_no_alias (re : ReOracle) (e1 e2 : Filter) (res1 res2 : Res) (h0 : Heap) :
+    Ext h0 (matchH re e1 res1 h0).2 ∧
+    Ext (matchH re e1 res1 h0).2 (matchH re e2 res2 (matchH re e1 res1 h0).2).2 ∧
+    (∀ a, (matchH re e1 res1 h0).1.addr = some a → h0.length ≤ a ∧ a < (matchH re e1 res1 h0).2.length) ∧
+    (∀ a1 a2, (matchH re e1 res1 h0).1.addr = some a1 →
+      (matchH re e2 res2 (matchH re e1 res1 h0).2).1.addr = some a2 → a1 < a2) ∧
+    (matchH re e1 res1 h0).1.read (matchH re e2 res2 (matchH re e1 res1 h0).2).2 =
+      (matchH re e1 res1 h0).1.read (matchH re e1 res1 h0).2 := by
+  obtain ⟨x1, f1⟩ := frameE re res1 e1 h0
+  obtain ⟨x2, f2⟩ := frameE re res2 e2 (evalH re res1 e1 h0).2
+  refine ⟨x1, x2, f1, ?_, ?_⟩
+  · intro a1 a2 h1 h2
+    have := (f1 a1 h1).2
+    have := (f2 a2 h2).1
+    simp only [matchH] at *
+    omega
+  · simp only [matchH, HMatch.read]
+    cases ha : (evalH re res1 e1 h0).1.1 with
+    | none => rfl
+    | some a =>
+      have := (f1 a ha).2
+      simp only [Option.map_some]
+      rw [x2.cell a this]
+
 /-! ## text level: parser model (C07) ∘ evaluator model -/
 
 /-- **eval_test_text**: if the parser model accepts the text with tree `t` and NewFilter compiles
@@ -277,6 +322,18 @@ theorem newFilterText_test (cx : Ctx) (re : ReOracle) (text : Bytes) (f : Filter
       simp only [hw] at h
       cases h
       exact ⟨t, rfl, hw, fun res i hi => eval_test re t f res i hw hi⟩
+
+/-- **text_accepted_converts**: whatever text the parser model accepts has a tree in the evaluator's
+vocabulary (`filterOfText` never fails with `badTree`; uses C07's `accepted_tree_wellformed`). -/
+theorem text_accepted_converts (cx : Ctx) (q : Bytes) (t : Proc.ParseFilter.Filter)
+    (h : Proc.ParseFilter.parseFilter cx q = .ok t) : ∃ t', filterOfText cx q = .ok t' ∧ toTree t = some t' :=
+  filterOfText_of_accepted cx q t h
+
+/-- **newFilter_models_agree**: the composed model `newFilterText` (parser model, `toTree`, `walk`)
+accepts a text exactly when C07's model of `benchproc.NewFilter` accepts it, for every text. -/
+theorem newFilter_models_agree (cx : Ctx) (re : ReOracle) (q : Bytes) :
+    isOk (newFilterText cx re q) = isOk (Proc.ParseFilter.newFilter cx q) :=
+  newFilterText_accepts_iff cx re q
 
 /-- **text_semantics**: every well-formed expression of the literal fragment — terms `k:v`, value
 lists `k:(a OR b …)`, `*`, `-x`, parentheses, juxtaposition / `AND`, `OR`, over bare words that
